@@ -4,6 +4,7 @@ mod c01;
 mod c02;
 mod c03;
 mod c04;
+mod c04_fri;
 mod c06;
 mod c17;
 mod mutate;
@@ -28,7 +29,14 @@ fn main() {
         "C01" => {
             let run = Run::new(args, "exploration");
             let subs = c01::subs(&run);
-            run.go(subs)
+            if run.replay_requested() {
+                run.go(subs)
+            }
+            for s in subs {
+                run.explore(s);
+            }
+            run.require(run.class_total("accepted with 255 distinct query positions") > 0, "C01: no proof with 255 distinct query positions was produced");
+            run.finish()
         },
         "C02" => {
             let run = Run::new(args, "exploration");
@@ -42,7 +50,17 @@ fn main() {
         },
         "C04" => {
             let run = Run::new(args, "model_checking");
-            let subs = c04::subs(&run);
+            let mut subs = c04::subs(&run);
+            use crypto::hashers;
+            use math::fields::{f128::BaseElement as B128, f62::BaseElement as B62, f64::BaseElement as B64, CubeExtension, QuadExtension};
+            subs.extend(c04_fri::subs::<B128, hashers::Sha3_256<B128>>(&run, "sha3_256"));
+            subs.extend(c04_fri::subs::<QuadExtension<B64>, hashers::Rp64_256>(&run, "rp64_256"));
+            subs.extend(c04_fri::subs::<CubeExtension<B62>, hashers::Blake3_192<B62>>(&run, "blake3_192"));
+            if run.tier().is_thorough() {
+                subs.extend(c04_fri::subs::<B64, hashers::RpJive64_256>(&run, "rpjive64_256"));
+                subs.extend(c04_fri::subs::<QuadExtension<B128>, hashers::Blake3_256<B128>>(&run, "blake3_256"));
+                subs.extend(c04_fri::subs::<B62, hashers::Rp62_248>(&run, "rp62_248"));
+            }
             run.go(subs)
         },
         "C06" => {
